@@ -1,4 +1,41 @@
-(* theorems for C11 are being added (see SMP/) *)
+(* C11 - No deadlock (partial): what is proved is the last sentence of the property, for every instance:
+   with early transport disabled an AGV is only ever OFFERED a job that is ready for pickup; and offers
+   are always applicable. Progress/liveness ("every non-terminal state offers a transition", "always-accept
+   finishes") is refuted in the stated configuration class by the known findings (hang with an ordered
+   standalone buffer, LIFO deadlock with early transport disabled) and otherwise decided by exploration. *)
 From Coq Require Import List ZArith Bool.
-Theorem C11_placeholder : True. Proof. exact I. Qed.
-Print Assumptions C11_placeholder.
+From JSL Require Import Base.Res Base.ListX SM.Types SM.Util SM.Handler SM.Step SM.Inv SMP.Offers.
+Import ListNotations.
+
+Theorem C11_ready_only :
+  forall i x l tr, i_early i = false -> get_possible_transport_transition i x = Ok l -> In tr l ->
+    exists t ts j jb, tr = mkTr (CT t) (NT TWorking) (Some j)
+      /\ nth_error (s_trans x) t = Some ts /\ t_st ts = TIdle
+      /\ nth_error (s_jobs x) j = Some jb /\ is_ready i x j jb = Ok true.
+Proof.
+  intros i x l tr He H Hin. destruct (transport_offers_spec i x l tr H Hin) as [t [ts [j [jb [A [B [C [D [_ E]]]]]]]]].
+  exists t, ts, j, jb. repeat split; auto.
+Qed.
+Print Assumptions C11_ready_only.
+
+(* ready = lies in a post- or standalone buffer at the position the discipline releases *)
+Theorem C11_ready_means :
+  forall i x j jb, is_ready i x j jb = Ok true ->
+    exists b c, get_buf x (j_loc jb) = Some b /\ get_bcfg i (j_loc jb) = Some c
+      /\ (match j_loc jb with BStd _ | BPost _ => True | _ => False end)
+      /\ is_correct_position (index_of j (b_store b)) (length (b_store b)) (bc_type c) = Ok true.
+Proof.
+  intros i x j jb H. unfold is_ready in H.
+  destruct (get_buf x (j_loc jb)) as [b|]; simpl in H; [|discriminate].
+  destruct (get_bcfg i (j_loc jb)) as [c|]; simpl in H; [|discriminate].
+  destruct (is_correct_position _ _ _) as [cp|] eqn:E; simpl in H; [|discriminate].
+  injection H as H1. apply andb_true_iff in H1. destruct H1 as [H1 H2]. subst cp.
+  exists b, c. split; [reflexivity|]. split; [reflexivity|]. split; [|exact E].
+  destruct (j_loc jb); try discriminate; exact I.
+Qed.
+Print Assumptions C11_ready_means.
+
+Theorem C11_offers_applicable :
+  forall i x offers tr, no_transport_ops_b x = true ->
+    get_possible_transitions i x = Ok offers -> In tr offers -> is_transition_valid x tr = Ok true.
+Proof. exact offers_are_valid. Qed.
